@@ -316,7 +316,7 @@ func (f *Composite) Unpack(data []byte) (int, error) {
 		isVariableLength = true
 	}
 
-	if offset+dataLen > len(data) {
+	if dataLen < 0 || dataLen > len(data)-offset {
 		return 0, fmt.Errorf("not enough data to unpack, expected: %d, got: %d", offset+dataLen, len(data))
 	}
 	// data is stripped of the prefix before it is provided to unpack().
